@@ -169,11 +169,23 @@ class ProfileTables:
                                 raise AnalysisError('profiles.py: non-literal key')
                             if isinstance(const(v), str):
                                 d[ks] = v.value
+                            elif (
+                                isinstance(v, ast.Subscript)
+                                and isinstance(v.value, ast.Subscript)
+                                and isinstance(v.value.value, ast.Name)
+                                and v.value.value.id in ('macros', 'properties')
+                                and isinstance(v.value.slice, ast.Attribute)
+                                and isinstance(const(v.slice), str)
+                            ):
+                                # reference to an entry of a table defined above
+                                src = (self.macros if v.value.value.id == 'macros' else self.properties).get(v.value.slice.attr)
+                                if src is None or v.slice.value not in src:
+                                    raise AnalysisError(f'profiles.py: {text(v)} refers to an unknown table entry')
+                                d[ks] = src[v.slice.value]
+                            elif isinstance(v, (ast.Lambda, ast.Name)):
+                                d[ks] = None  # a callable validator
                             else:
-                                try:
-                                    d[ks] = literal(v)
-                                except AnalysisError:
-                                    d[ks] = None  # a callable validator
+                                raise AnalysisError(f'profiles.py: value of {ks!r} is neither a pattern nor a callable: {text(v)}')
                         val = d
                     else:
                         raise AnalysisError(f'profiles.py: table {text(t)} is not a dict literal')
